@@ -80,7 +80,11 @@ def classify(sym, member, texts):
             return 1, 'const-qualified definitions in src/'
     if found_nonconst:
         # never written?  (assignment, compound assignment, increment, passed by non-const pointer is not detected)
-        wr = re.compile(r'\b%s\b\s*(\[[^\]]*\])?\s*(=[^=]|\+=|-=|\*=|/=|\|=|&=|\^=|<<=|>>=|\+\+|--)|(\+\+|--)\s*%s\b' % (re.escape(name), re.escape(name)))
+        # a write: assignment / compound assignment / increment of the object, of an element or of a member (any depth of . -> []),
+        # a call of a mutating container member, or its address / a reference to it escaping into a non-const context
+        chain = r'(\s*(\[[^\]]*\]|(\.|->)\s*\w+))*'
+        wr = re.compile(r'\b%s\b%s\s*(=[^=]|\+=|-=|\*=|/=|\|=|&=|\^=|<<=|>>=|\+\+|--)|(\+\+|--)\s*%s\b|\b%s\b%s\s*(\.|->)\s*(clear|push_back|emplace_back|emplace|insert|erase|assign|resize|swap|reserve|pop_back|reset)\s*\(|std::swap\s*\([^;]*\b%s\b'
+                        % (re.escape(name), chain, re.escape(name), re.escape(name), chain, re.escape(name)))
         writers = []
         for f in set(files):
             t = texts[f]
